@@ -90,14 +90,16 @@ PROPS = {
     },
     "C02": {
         "title": "Unmodified round trip preserves module content",
-        "units": ["V3_remap", "V9b_conv"],
+        "units": ["V3_remap", "V9b_conv", "V11_emit", "V12_sections"],
+        "obligations_extra": V11_EMIT + V11_CODE + V12_TAGS + V12_TABLES + V12_ELEMS + V12_CEXPR + V12_IMPORTS + V12_EXPORTS + V12_START + V12_DATA + V12_GLOBALS + V12_MEMS + V12_CUSTOM
+                             + ["V12_sections.encode_type_section.groups_in_order_explicit_ones_as_one_rec_entry", "V12_sections.fn:Module::encode_type_section", "V12_sections.encode_names.*", "V12_sections.fn:Module::encode_names"],
         "kani": ["k1_valtype_roundtrip", "k1_valtype_roundtrip_exn_cont", "k1_valtype_encoder_matches_upstream", "k4_v128_bytes_preserved", "k4_ieee32_from_float_bits", "k4_ieee64_from_float_bits"],
         "obligations": ["K:k1_*", "K:k4_*", "V3_remap.lemma.identity_remap_is_noop", "V3_remap.fn:lemma_identity_remap_is_noop", "V3_remap.fix_op_id_mapping.*", "V3_remap.fn:fix_op_id_mapping", "V3_remap.update_*", "V3_remap.fn:update_*", "V3_remap.refers_to_*", "V3_remap.fn:refers_to_*",
                         "V9b_conv.*.into_wasmparser.*", "V9b_conv.fn:* as From::from"],
-        "glue": ["section order, names, custom-section replay, element / data / table emission are inside parse_internal / encode_internal: not under contract",
+        "glue": V11_TRUST + V12_TRUST + ["parse_internal (that the IR holds what wasmparser's section readers yield) is not under contract; of encode_internal every section's emission loop is a region under contract (V11 / V12) against TRUSTED models of wasm-encoder's section builders; that the sections are appended to the module in the standard order, and the `if !..is_empty()` guards around them, are read off the text",
                  "InitExpr::eval / to_wasmencoder_type (constant expressions) are not under contract: only the bit-exactness of the float / v128 wrappers they use is proved"],
         "design_ref": "DESIGN.md §4 K1 K4, §5 C02",
-        "level_text": "Instructions survive encode's in-place id rewrite when nothing was edited (identity maps leave every operator unchanged: corollary of the exact remap contract), value types survive the IR, float / v128 constants keep their bits. Everything about sections is glue.",
+        "level_text": "Instructions survive encode's in-place id rewrite when nothing was edited (identity maps leave every operator unchanged: corollary of the exact remap contract), value types survive the IR, float / v128 constants keep their bits. Of the sections, the ENCODE side is under contract region by region (every stored type group, import, function type index, table, memory, tag, global, export, start function, element segment, function body, data segment and custom section is emitted in stored order with its own contents); the PARSE side (that the IR holds what the section readers yield) is glue.",
     },
     "C03": {
         "title": "Parsing never panics",
@@ -283,14 +285,14 @@ PROPS = {
                                   "V8_lower.lower_end_with_pending_bodies.*", "V8_lower.fn:Module::lower_end_with_pending_bodies", "V8_lower.flush_*", "V8_lower.fn:Module::flush_*"],
         "glue": LOWER_GLUE + ["the preparation of the entry / exit code before the instruction loop is a region of resolve_special_instrumentation (R16); ModuleTypes::get / add_func_type and Function::get_type_id are assumed there with the clauses V6 / V7 prove"],
         "design_ref": "DESIGN.md §5 C17-C20",
-        "level_text": "Placement only: entry code goes in front of instruction 0 and is consumed; a copy of the exit code goes immediately before every return / return_call* / unreachable / throw*, and `end` + exit code before the function's final end (closing the wrapper block opened by the entry code) and is consumed; nothing else changes. Proved for all bodies and indices.",
+        "level_text": "Placement only: entry code goes in front of instruction 0 and is consumed; a copy of the exit code goes immediately before every return / return_call* / unreachable / throw*, and `end` + exit code before the function's final end (closing the wrapper block opened by the entry code) and is consumed; nothing else changes. Proved for all bodies and indices, on the helpers AND on one iteration of the driver loop (ordinary instruction, `end`, instruction inside a removed construct); the driver visits every local function (F30).",
     },
     "C18": {
         "title": "Block entry probes fire on every entry into the block",
         "units": ["V8_lower", "V2_reindex"],
         "obligations": V8_BASE + ["V8_lower.lower_block_entry_opener.*", "V8_lower.fn:Module::lower_block_entry_opener", "V8_lower.lower_opener_with_several_requests.*", "V8_lower.fn:Module::lower_opener_with_several_requests", "V8_lower.lower_one_instruction.*", "V8_lower.fn:Module::lower_one_instruction", "V8_lower.fn:InstrumentationFlag::has_instr", "V8_lower.resolve_block_entry.*", "V8_lower.fn:resolve_block_entry"],
         "glue": LOWER_GLUE, "design_ref": "DESIGN.md §5 C17-C20",
-        "level_text": "Placement only: on block / loop / if / else the probe code is appended to the AFTER list of the opening instruction (= first thing inside the body or arm, re-executed on every loop iteration); on any other instruction nothing changes.",
+        "level_text": "Placement only: on block / loop / if / else the probe code is appended to the AFTER list of the opening instruction (= first thing inside the body or arm, re-executed on every loop iteration); on any other instruction nothing changes; one iteration of the driver loop is proved to do exactly that for an opener carrying a block-entry request, alone or together with block-exit / semantic-after requests.",
     },
     "C19": {
         "title": "Block exit probes fire when the block or arm falls through",
@@ -298,7 +300,7 @@ PROPS = {
         "obligations": V8_BASE + ["V8_lower.flush_*", "V8_lower.fn:Module::flush_*", "V8_lower.lower_block_exit_opener.*", "V8_lower.fn:Module::lower_block_exit_opener", "V8_lower.lower_opener_with_several_requests.*", "V8_lower.fn:Module::lower_opener_with_several_requests", "V8_lower.lower_end_with_pending_bodies.*", "V8_lower.fn:Module::lower_end_with_pending_bodies", "V8_lower.lower_else_with_pending_bodies.*", "V8_lower.fn:Module::lower_else_with_pending_bodies", "V8_lower.lower_else_block_alt.*", "V8_lower.fn:Module::lower_else_block_alt", "V8_lower.resolve_bodies.*", "V8_lower.fn:resolve_bodies", "V8_lower.plan_resolution_block_exit.*", "V8_lower.fn:plan_resolution_block_exit"],
         "glue": LOWER_GLUE + ["ASSUMED: the contracts of save_not_flagged_body_to_resolve{,_inner} (HashMap entry().and_modify(closure).or_insert() chains): they add the body, unflagged, under (block, mode) and touch nothing else"],
         "design_ref": "DESIGN.md §5 C17-C20",
-        "level_text": "Placement only. Registration: the probe of an `if` is due at its else-or-end, that of a block / loop / else before the `end` of that very construct (innermost open one), unflagged, nothing for other instructions. Emission: the code saved for a construct's `else`/`end` is emitted into the requested list of that instruction as (flag-guarded chain; unconditional bodies), nothing else changes. The driver that pairs the two (block stack, resolve at Else/End) is glue.",
+        "level_text": "Placement only. Registration: the probe of an `if` is due at its else-or-end, that of a block / loop / else before the `end` of that very construct (innermost open one), unflagged, nothing for other instructions. Emission: the code saved for a construct's `else`/`end` is emitted into the requested list of that instruction as (flag-guarded chain; unconditional bodies), nothing else changes, whatever the iteration order of the table. Driver (one iteration): the opener registers, the `else` flushes what is saved for the else-or-end of its `if` (also when the else carries a block-alternate), the `end` flushes both tables and takes the entries off.",
     },
     "C20": {
         "title": "Semantic-after probes fire exactly once after the instruction",
@@ -315,7 +317,7 @@ PROPS = {
         "units": ["V8_lower", "V2_reindex"],
         "obligations": V8_BASE + ["V8_lower.lower_block_alt_opener.*", "V8_lower.fn:Module::lower_block_alt_opener", "V8_lower.lower_else_block_alt.*", "V8_lower.fn:Module::lower_else_block_alt", "V8_lower.flush_at_else.*", "V8_lower.fn:Module::flush_at_else", "V8_lower.lower_closing_end.*", "V8_lower.fn:Module::lower_closing_end_of_removed_construct", "V8_lower.lower_one_instruction.*", "V8_lower.fn:Module::lower_one_instruction", "V8_lower.fn:InstrumentationFlag::has_instr", "V8_lower.plan_resolution_block_alt.*", "V8_lower.fn:plan_resolution_block_alt", "V8_lower.fn:Body::clear_instr"],
         "glue": LOWER_GLUE, "design_ref": "DESIGN.md §5 C21",
-        "level_text": "Placement only: on block / loop / if / else the replacement becomes the ALTERNATE of the opening instruction (an empty replacement becomes an empty alternate = removal), the construct's end is kept only for `else`; other instructions untouched. Removal of the instructions in between (delete_block tracking) is driver glue.",
+        "level_text": "Placement only: on block / loop / if / else the replacement becomes the ALTERNATE of the opening instruction (an empty replacement becomes an empty alternate = removal), the construct's end is kept only for `else`; other instructions untouched. Driver (one iteration): the opener / else starts the removal, every instruction inside is removed with nothing else planned on it (no exit code, no probe), the nesting is tracked, the matching `end` ends it; F16, F23 fixed.",
     },
     "C22": {
         "title": "Special-mode injections are never silently lost",
